@@ -158,6 +158,11 @@ func writeConf(dir string, conf map[string]string, sinkPort int) {
 func startCollector(bin, dir string, env []string, flags []string, wrap []string) (*collector, error) {
 	c := &collector{dir: dir, errPath: filepath.Join(dir, fmt.Sprintf("stderr.%d", time.Now().UnixNano()))}
 	argv := append([]string{bin, "-config", filepath.Join(dir, "vflow.conf")}, flags...)
+	for _, f := range flags {
+		if f == "-config" { // the caller placed the option itself
+			argv = append([]string{bin}, flags...)
+		}
+	}
 	if len(wrap) > 0 {
 		argv = append(append([]string{}, wrap...), argv...)
 	}
